@@ -197,13 +197,18 @@ func (s *subscriberImpl[T]) NextWithContext(ctx context.Context, v T) {
 		s.mu.Lock()
 	}
 
-	if atomic.LoadInt32(&s.status) == 0 {
-		s.destination.NextWithContext(ctx, v)
-	} else {
-		OnDroppedNotification(ctx, NewNotificationNext(v))
-	}
+	func() {
+		// The lock is released even if the destination panics (e.g. a teardown
+		// that panics while a downstream operator ends the stream).
+		defer s.mu.Unlock()
 
-	s.mu.Unlock()
+		if atomic.LoadInt32(&s.status) == 0 {
+			s.destination.NextWithContext(ctx, v)
+		} else {
+			OnDroppedNotification(ctx, NewNotificationNext(v))
+		}
+	}()
+
 	verifPoint("subscriber.next.exit")
 }
 
@@ -214,20 +219,26 @@ func (s *subscriberImpl[T]) Error(err error) {
 
 // Implements Observer.
 func (s *subscriberImpl[T]) ErrorWithContext(ctx context.Context, err error) {
-	s.mu.Lock()
+	// The teardowns of this subscriber run, and its lock is released, even if
+	// the destination panics: a teardown that panics downstream is re-raised
+	// through the destination's callback and must neither leave this lock held
+	// nor keep the upstream teardowns from running.
+	defer s.unsubscribe()
 
-	if atomic.CompareAndSwapInt32(&s.status, 0, 1) {
-		if s.destination != nil {
-			s.destination.ErrorWithContext(ctx, err)
+	func() {
+		s.mu.Lock()
+		defer s.mu.Unlock()
+
+		if atomic.CompareAndSwapInt32(&s.status, 0, 1) {
+			if s.destination != nil {
+				s.destination.ErrorWithContext(ctx, err)
+			}
+		} else {
+			OnDroppedNotification(ctx, NewNotificationError[T](err))
 		}
-	} else {
-		OnDroppedNotification(ctx, NewNotificationError[T](err))
-	}
+	}()
 
-	s.mu.Unlock()
 	verifPoint("subscriber.terminal.unlocked")
-
-	s.unsubscribe()
 }
 
 // Implements Observer.
@@ -237,20 +248,23 @@ func (s *subscriberImpl[T]) Complete() {
 
 // Implements Observer.
 func (s *subscriberImpl[T]) CompleteWithContext(ctx context.Context) {
-	s.mu.Lock()
+	// See ErrorWithContext.
+	defer s.unsubscribe()
 
-	if atomic.CompareAndSwapInt32(&s.status, 0, 2) {
-		if s.destination != nil {
-			s.destination.CompleteWithContext(ctx)
+	func() {
+		s.mu.Lock()
+		defer s.mu.Unlock()
+
+		if atomic.CompareAndSwapInt32(&s.status, 0, 2) {
+			if s.destination != nil {
+				s.destination.CompleteWithContext(ctx)
+			}
+		} else {
+			OnDroppedNotification(ctx, NewNotificationComplete[T]())
 		}
-	} else {
-		OnDroppedNotification(ctx, NewNotificationComplete[T]())
-	}
+	}()
 
-	s.mu.Unlock()
 	verifPoint("subscriber.terminal.unlocked")
-
-	s.unsubscribe()
 }
 
 // Implements Observer.
